@@ -231,6 +231,10 @@ func lexOracles(ops []oper.Operator, src string, toks []*token.Token) (string, s
 				if userSym[t.Kind] && !byBuiltinRule(t, runes) {
 					return fmt.Sprintf("token %d is operator %q although the longer operator %q is a prefix of the rest", i, t.Lexeme, k), "lex-longest"
 				}
+				if !oper.IsOp(k) {
+					// not a declarable symbolic operator (characters outside the operator alphabet)
+					continue
+				}
 				return fmt.Sprintf("token %d is built-in %q although the registered operator %q is a prefix of the rest", i, t.Lexeme, k), "lex-shadowed"
 			}
 		}
